@@ -5,7 +5,7 @@
    dictionary t (exact membership, what the verif probe observes); words and texts are
    arbitrary lists of runes.  The model is the code after fix 5fab757. *)
 From Coq Require Import ZArith List Bool.
-From FV Require Import C14.Model C14.Spec C14.ProofsDict C14.ProofsMatch C14.ProofsWild C14.ProofsSpec.
+From FV Require Import C14.Model C14.Spec C14.ProofsDict C14.ProofsMatch C14.ProofsSem C14.ProofsWild C14.ProofsSpec.
 Import ListNotations.
 Open Scope Z_scope.
 
@@ -126,10 +126,65 @@ Proof.
 Qed.
 Print Assumptions c14_matching_depends_only_on_words.
 
+(* What the matcher does on ANY dictionary — wildcard and literal branches may compete.
+   `follows r w u` (ProofsSem.v): w is the trie path the matcher takes on the text u —
+   at each node the child labelled with the text's character if there is one, and only
+   otherwise the child labelled '*'.  `no_early r w`: no proper non-empty prefix of w is a
+   word.  starts(u, pos) returns pos+k exactly when the followed path of length k+1 is a
+   word and the first one to be (first terminal reached), and -1 exactly when no followed
+   path is a word — a literal branch that dead-ends is NOT retried through '*'. *)
+Theorem c14_match_semantics : forall ops u pos k, 0 <= pos ->
+  (starts_loop (root (run ops)) u pos = pos + Z.of_nat k <->
+   exists w, length w = S k /\ follows (root (run ops)) w u /\
+             terminal (root (run ops)) w = true /\ no_early (root (run ops)) w) /\
+  (starts_loop (root (run ops)) u pos = -1 <->
+   forall w, w <> [] -> follows (root (run ops)) w u -> terminal (root (run ops)) w = false).
+Proof.
+  intros ops u pos k Hpos. split.
+  - rewrite (starts_loop_some_iff _ u pos k Hpos). apply mlen_some_sem, root_not_end.
+  - rewrite (starts_loop_none_iff _ u pos Hpos). apply mlen_none_sem, root_not_end.
+Qed.
+Print Assumptions c14_match_semantics.
+
+(* the path the matcher follows is unique *)
+Theorem c14_followed_path_unique : forall ops u w1 w2,
+  follows (root (run ops)) w1 u -> follows (root (run ops)) w2 u -> length w1 = length w2 -> w1 = w2.
+Proof. intros ops u. apply follows_unique. Qed.
+Print Assumptions c14_followed_path_unique.
+
+(* find / Contains: the leftmost start position at which starts succeeds *)
+Theorem c14_leftmost_match : forall ops s,
+  (forall j k, find_from (root (run ops)) s 0 = (Z.of_nat j, Z.of_nat k + 1) <->
+     (j < length s)%nat /\ starts_loop (root (run ops)) (skipn j s) 0 = Z.of_nat k /\
+     forall j', (j' < j)%nat -> starts_loop (root (run ops)) (skipn j' s) 0 = -1) /\
+  (find_from (root (run ops)) s 0 = (-1, 0) <->
+     forall j, (j < length s)%nat -> starts_loop (root (run ops)) (skipn j s) 0 = -1) /\
+  (contains_text (run ops) s = true <->
+     exists j, (j < length s)%nat /\ 0 <= starts_loop (root (run ops)) (skipn j s) 0).
+Proof.
+  intros ops s. split; [intros j k; apply find_from_sem|]. split; [apply find_from_none_sem|].
+  rewrite contains_text_first_match.
+  destruct (first_match (root (run ops)) s) as [[j k]|] eqn:E.
+  - split; [intros _ | reflexivity]. destruct (first_match_some _ _ _ _ E) as [H1 [H2 _]].
+    exists j. split; [exact H2|]. apply mlen_some_iff. eauto.
+  - split; [discriminate|]. intros [j [Hj H]]. apply mlen_some_iff in H as [k Hk].
+    rewrite (first_match_none _ _ E j Hj) in Hk. discriminate.
+Qed.
+Print Assumptions c14_leftmost_match.
+
+(* Filter: scan from the left; where a match of length k+1 begins write k+1 masks and resume
+   after it, elsewhere keep the character (filt, ProofsMatch.v, is that recursion) *)
+Theorem c14_filter_semantics : forall ops s,
+  filter_text (run ops) s = filt (root (run ops)) O s.
+Proof. intros ops s. apply filter_text_filt, root_not_end. Qed.
+Print Assumptions c14_filter_semantics.
+
 (* "a wildcard in a dictionary word stands for any single character": if literal and
    wildcard branches never compete (no two words continue a common prefix one with '*' and
    the other with another character), a text matches iff it contains an instance of a
-   dictionary word in which every '*' is replaced by exactly one arbitrary character *)
+   dictionary word in which every '*' is replaced by exactly one arbitrary character.
+   A corollary of c14_match_semantics: without competition "the matcher follows w on u" is
+   "u begins with an instance of w" (follows_nc, ProofsWild.v). *)
 Theorem c14_wildcard : forall ops s,
   nc_dict (fun w => terminal (root (run ops)) w = true) ->
   contains_text (run ops) s = true <->
@@ -163,6 +218,15 @@ Proof.
   - intros Hc s. apply model_contains_wild, Hc.
 Qed.
 Print Assumptions c14_model_passes_reference_checks.
+
+(* ... and on EVERY dictionary Contains equals the matcher computed from the word list alone
+   (Spec.ref_contains: at the path reached so far continue with the text's character if some
+   word continues that way, only otherwise with '*'; stop at the first path that is a word;
+   leftmost start) — what Run.v compares the implementation with on competing dictionaries *)
+Theorem c14_model_meets_general_reference : forall ops s,
+  contains_text (run ops) s = ref_contains (spec_run ops) s.
+Proof. exact model_contains_general. Qed.
+Print Assumptions c14_model_meets_general_reference.
 
 (* ... and the boolean checks mean what the sentences say *)
 Theorem c14_reference_checks_sound :
